@@ -94,12 +94,13 @@ def stream(img, entry):
 def expected_stream(f):
     """The stream a file is stored as (ML: header, data, trailer; tokenised BASIC: FF len data; ASCII: raw)."""
     data = bytes(f["data"])
+    n16 = len(data) & 0xFFFF          # a longer file cannot be described by the 16-bit length word (callers refuse it)
     if f["ftype"] == 2:
-        return (bytes([0x00, len(data) >> 8, len(data) & 0xFF, f["load"] >> 8, f["load"] & 0xFF]) + data +
+        return (bytes([0x00, n16 >> 8, n16 & 0xFF, f["load"] >> 8, f["load"] & 0xFF]) + data +
                 bytes([0xFF, 0x00, 0x00, f["exec"] >> 8, f["exec"] & 0xFF]))
     if f["dtype"] == 0xFF:
         return data
-    return bytes([0xFF, len(data) >> 8, len(data) & 0xFF]) + data
+    return bytes([0xFF, n16 >> 8, n16 & 0xFF]) + data
 
 
 def parse_stream(entry, s):
